@@ -157,9 +157,9 @@ def gen(rng, ne, ns):
         elif j % 3 == 1:
             cases[-1]["entry"] = "seq"; cases[-1]["step_unit"] = rng.choice([3, 2])
         if j % 3 == 2:
-            # the same Simulation object runs the Monte Carlo entry point once per unit (reset between iterations): nothing of the
+            # the same Simulation object runs the Monte Carlo or the sequential entry point once per unit (each run starts from the reset system): nothing of the
             # first run - its time grid in particular - may leak into the second
-            cases[-1]["entry"] = "mc"; cases[-1]["reuse"] = True; cases[-1]["step_unit"] = None
+            cases[-1]["entry"] = rng.choice(["mc", "seq"]); cases[-1]["reuse"] = True; cases[-1]["step_unit"] = None
     return cases
 
 
